@@ -166,14 +166,14 @@ def vector_family(tier, seed):
             E.append(ventry("resize", M, A, S_resize(M, A, L2), v(L0), {"L": L2}, alt=altv))
         E.append(ventry("is_not_equal", M, A, S_eq(M, A, "is_not_equal"), v(L0) + v(L0, 1), alt=[v(0) + v(0), v(M) + v(M), v(M - 1) + v(M)], variants=short))
         E.append(ventry("assert_equal", M, A, S_eq(M, A, "assert_equal"), v(L0) + v(L0), alt=[v(0) + v(0), v(M) + v(M), v(1) + v(1)], variants=short))
-        E.append(ventry("assert_not_equal", M, A, S_eq(M, A, "assert_not_equal"), v(L0) + v(L0, 1), alt=[v(0) + v(1), v(M) + v(M, 1), v(M - 1) + v(M)], variants=short))
+        E.append(ventry("assert_not_equal", M, A, S_eq(M, A, "assert_not_equal"), (v(L0) + v(L0, 1)) if L0 else (v(0) + v(1)), alt=[v(0) + v(1), v(M) + v(M, 1), v(M - 1) + v(M)], variants=short))
         for Lc in sorted({0, 1, L0, M}):
             c = [(x + 0) % P for x in vals[:Lc]]
             E.append(ventry("is_equal_to_fixed", M, A, S_eq_fixed(M, A, "is_equal_to_fixed", c), v(Lc), {"c": c, "nc": Lc}, alt=[v(M), v(0), v(Lc, 1)]))
         c = vals[:L0]
         E.append(ventry("is_not_equal_to_fixed", M, A, S_eq_fixed(M, A, "is_not_equal_to_fixed", c), v(L0), {"c": c, "nc": L0}, alt=[v(M), v(0), v(L0, 1)]))
         E.append(ventry("assert_equal_to_fixed", M, A, S_eq_fixed(M, A, "assert_equal_to_fixed", c), v(L0), {"c": c, "nc": L0}))
-        E.append(ventry("assert_not_equal_to_fixed", M, A, S_eq_fixed(M, A, "assert_not_equal_to_fixed", c), v(L0, 1), {"c": c, "nc": L0}, alt=[v(0) if L0 else v(1), v(M) if L0 != M else v(1)]))
+        E.append(ventry("assert_not_equal_to_fixed", M, A, S_eq_fixed(M, A, "assert_not_equal_to_fixed", c), v(L0, 1) if L0 else v(1), {"c": c, "nc": L0}, alt=[v(0) if L0 else v(2), v(M) if L0 != M else v(1)]))
         E.append(ventry("is_equal", M, A, S_eq(M, A, "is_equal"), vec_input(M, [x % 256 for x in vals[:L0]]) * 2, {"t": "byte"}, variants=short))
     return E
 
